@@ -285,6 +285,15 @@ func c01Gen(tier string, rng *rand.Rand, emit func(interface{})) {
 	emit(c01Case{Run: mwRun{EL: 50, TL: 25, X1: toF64s([]float64{1, 2}), X2: []F64{}, Alts: allAlts}})
 	emit(c01Case{Run: mwRun{EL: 50, TL: 25, X1: nil, X2: nil, Alts: allAlts}})
 	emit(c01Case{Run: mwRun{EL: 50, TL: 25, X1: toF64s([]float64{3, 3, 3}), X2: toF64s([]float64{3, 3}), Alts: allAlts}})
+	// (d) LAST (the random stream of the blocks above stays what it was): signed zeros in the pool, -0.0 and
+	// +0.0 are the same number (seeded C03-8 class, see mwSignedZeros)
+	nZero := 60
+	if thorough {
+		nZero = 600
+	}
+	for _, pr := range mwSignedZeros(rng, nZero, 8) {
+		emit(c01Case{Run: mwRun{EL: 50, TL: 25, X1: toF64s(pr[0]), X2: toF64s(pr[1]), Alts: allAlts}})
+	}
 }
 
 func init() { register(&Prop{ID: "C01", Num: 1, Gen: c01Gen, Run: c01Run}) }
